@@ -264,7 +264,15 @@ func dumpAll(dir string) error {
 	if err != nil {
 		return err
 	}
-	return writeIfChanged(filepath.Join(dir, "Access.lean"), []byte(acc))
+	if err := writeIfChanged(filepath.Join(dir, "Access.lean"), []byte(acc)); err != nil {
+		return err
+	}
+	// the concurrency surface for C11 (syntactic; see concurrency.go)
+	conc, err := emitConcurrencyLean(repo)
+	if err != nil {
+		return err
+	}
+	return writeIfChanged(filepath.Join(dir, "Concurrency.lean"), []byte(conc))
 }
 
 // recReader records the size of every Read request it receives.
